@@ -233,7 +233,7 @@ package boltz
 // Transaction context (C07, C08)
 // ---------------------------------------------------------------------------
 
-//@ ghost ctxTx : (Array Int Int)
+//@ ghost ctxTx : (Array Int Int) private
 //@ func (MutateContext).Tx
 //@   pure
 //@   ensures result == ctxTx[self]
